@@ -120,11 +120,17 @@ package bytes
 //@   props C07
 //@   nopanic
 
+// C13: a \uXXXX escape denotes the code point spelt by its four hex digits, in either letter case
 //@ func getu4(s)
-//@   props C07
+//@   props C07 C13
 //@   nopanic
 //@   ensures result >= -1 && result <= 65535 && (result >= 0 ==> len(s) >= 6)
-//@   loop 0 invariant rangeindex < 4 && 0 <= r && (rangeindex == -1 ==> r == 0) && (rangeindex == 0 ==> r < 16) && (rangeindex == 1 ==> r < 256) && (rangeindex == 2 ==> r < 4096) && r < 65536
+//@   ensures (len(s) >= 6 && s[0] == '\\' && s[1] == 'u' && hexVal(s[2]) >= 0 && hexVal(s[3]) >= 0 && hexVal(s[4]) >= 0 && hexVal(s[5]) >= 0)
+//@             ? result == hexVal(s[2]) * 4096 + hexVal(s[3]) * 256 + hexVal(s[4]) * 16 + hexVal(s[5])
+//@             : result == 0 - 1
+//@   loop 0 invariant rangeindex < 4 && len(s) >= 6 && s[0] == '\\' && s[1] == 'u'
+//@   loop 0 invariant (rangeindex >= 0 ==> hexVal(s[2]) >= 0) && (rangeindex >= 1 ==> hexVal(s[3]) >= 0) && (rangeindex >= 2 ==> hexVal(s[4]) >= 0) && (rangeindex >= 3 ==> hexVal(s[5]) >= 0)
+//@   loop 0 invariant (rangeindex == -1 ==> r == 0) && (rangeindex == 0 ==> r == hexVal(s[2])) && (rangeindex == 1 ==> r == hexVal(s[2]) * 16 + hexVal(s[3])) && (rangeindex == 2 ==> r == hexVal(s[2]) * 256 + hexVal(s[3]) * 16 + hexVal(s[4])) && (rangeindex == 3 ==> r == hexVal(s[2]) * 4096 + hexVal(s[3]) * 256 + hexVal(s[4]) * 16 + hexVal(s[5]))
 //@   loop 0 decreases 4 - rangeindex
 
 //@ func unquoteBytes(s)
